@@ -31,7 +31,7 @@ void cart_residual(const Q *ptq, FieldF F, int nsp, bool hastime, Q Gamma, Q mu,
   typedef D1<N> S;
   std::array<S, N> x; for (int i = 0; i < N; i++) { x[i] = S(ptq[i]); x[i].d[i] = Q(1); }
   std::array<Dual<S, N>, N> xi; for (int i = 0; i < N; i++) { xi[i] = Dual<S, N>(x[i]); xi[i].d[i] = S(1); }
-  auto f = F(xi);
+  auto f = F(xi); Compound operator_level;
   S rho = f[0].v, u[3] = {f[1].v, f[2].v, f[3].v}, p = f[4].v;
   S et = p / ((S(Gamma) - S(1)) * rho) + (u[0] * u[0] + u[1] * u[1] + u[2] * u[2]) / S(2);
   S cons[5]; cons[0] = rho; for (int i = 0; i < 3; i++) cons[1 + i] = rho * u[i]; cons[4] = rho * et;
@@ -85,7 +85,7 @@ void axi_residual(const Q *ptq, FieldF F, bool hastime, Q Gamma, Q mu, Q kcond, 
   typedef D1<N> S;
   std::array<S, N> x; for (int i = 0; i < N; i++) { x[i] = S(ptq[i]); x[i].d[i] = Q(1); }
   std::array<Dual<S, N>, N> xi; for (int i = 0; i < N; i++) { xi[i] = Dual<S, N>(x[i]); xi[i].d[i] = S(1); }
-  auto f = F(xi);
+  auto f = F(xi); Compound operator_level;
   S r = x[0];
   S rho = f[0].v, u = f[1].v, w = f[2].v, p = f[3].v;
   S et = p / ((S(Gamma) - S(1)) * rho) + (u * u + w * w) / S(2); S H = et + p / rho;
@@ -143,7 +143,7 @@ struct Heat {
     typedef D1<4> S; std::array<S, 4> X; for (int i = 0; i < 4; i++) { X[i] = S(i < dim ? x[i] : (i == 3 && unsteady ? x[dim] : Q(0))); X[i].d[i] = Q(1); }
     std::array<Dual<S, 4>, 4> xi; for (int i = 0; i < 4; i++) { xi[i] = Dual<S, 4>(X[i]); xi[i].d[i] = S(1); }
     auto g = [&](const char *n) { return Dual<S, 4>(S(par0(p, n))); };
-    Dual<S, 4> Tf = T<Dual<S, 4>>(p, xi, dim, unsteady);
+    Dual<S, 4> Tf = T<Dual<S, 4>>(p, xi, dim, unsteady); Compound operator_level;
     Dual<S, 4> k = g("k_0") + g("k_1") * Tf + g("k_2") * Tf * Tf;
     Dual<S, 4> cp = g("cp_0") + g("cp_1") * Tf + g("cp_2") * Tf * Tf;
     Q res = Q(0);
@@ -157,7 +157,7 @@ struct Heat {
 struct Lap {
   template <class S> static S phi(const PM &p, const S &x, const S &y) { S Lx(par(p, "Lx")), Ly(par(p, "Ly")); auto sq = [](S a) { return a * a; }; return sq(Ly * Ly - y * y) + sq(Lx * Lx - x * x); }
   static Q ref(const PM &p, const Q *x) { typedef D1<2> S; typedef Dual<S, 2> I; S X[2]; for (int i = 0; i < 2; i++) { X[i] = S(x[i]); X[i].d[i] = Q(1); } I xi[2]; for (int i = 0; i < 2; i++) { xi[i] = I(X[i]); xi[i].d[i] = S(1); }
-    I ph = phi<I>(p, xi[0], xi[1]); return ph.d[0].d[0] + ph.d[1].d[1]; }
+    I ph = phi<I>(p, xi[0], xi[1]); Compound operator_level; return ph.d[0].d[0] + ph.d[1].d[1]; }
 };
 struct Burg {
   template <class S> static std::array<S, 2> uv(const PM &p, const S &x, const S &y, const S &t, bool with_t = true) { auto g = [&](const char *n) { return S(par(p, n)); }; S pi = S(qpi()), L = g("L");
@@ -165,7 +165,7 @@ struct Burg {
     S v = g("v_0") + g("v_x") * cos(g("a_vx") * pi * x / L) + g("v_y") * sin(g("a_vy") * pi * y / L);
     if (with_t) { u = u + g("u_t") * cos(g("a_ut") * pi * t / L); v = v + g("v_t") * sin(g("a_vt") * pi * t / L); }
     return {u, v}; }
-  static Q ref(const PM &p, const Q *x, int eq) { typedef D1<3> S; S X(x[0]), Y(x[1]), T(x[2]); X.d[0] = Q(1); Y.d[1] = Q(1); T.d[2] = Q(1); auto f = uv<S>(p, X, Y, T);
+  static Q ref(const PM &p, const Q *x, int eq) { typedef D1<3> S; S X(x[0]), Y(x[1]), T(x[2]); X.d[0] = Q(1); Y.d[1] = Q(1); T.d[2] = Q(1); auto f = uv<S>(p, X, Y, T); Compound operator_level;
     S uu = f[0] * f[0], uv_ = f[0] * f[1], vv = f[1] * f[1]; if (eq == 0) return f[0].d[2] + uu.d[0] + uv_.d[1]; return f[1].d[2] + uv_.d[0] + vv.d[1]; }
 };
 
@@ -182,7 +182,7 @@ struct NS4 {
       + g("a_", "z") * cos(g("c_", "z") + g("b_", "z") * kz * Z) * cos(g("g_", "z") + g("f_", "z") * T); }
   static Q ref(const PM &p, const Q *pt, int eq) { typedef D1<4> S; typedef Dual<S, 4> I;
     S x[4]; for (int i = 0; i < 4; i++) { x[i] = S(pt[i]); x[i].d[i] = Q(1); } I xi[4]; for (int i = 0; i < 4; i++) { xi[i] = I(x[i]); xi[i].d[i] = S(1); }
-    I rho = prim<I>(p, "rho", xi), u[3] = {prim<I>(p, "u", xi), prim<I>(p, "v", xi), prim<I>(p, "w", xi)}, T = prim<I>(p, "T", xi);
+    I rho = prim<I>(p, "rho", xi), u[3] = {prim<I>(p, "u", xi), prim<I>(p, "v", xi), prim<I>(p, "w", xi)}, T = prim<I>(p, "T", xi); Compound operator_level;
     auto g = [&](const char *n) { return S(par(p, n)); };
     S mu = g("mu_r") * powc(T.v / g("T_r"), par(p, "beta")); S lam = g("lambda_r") / g("mu_r") * mu, kap = g("kappa_r") / g("mu_r") * mu;
     S pr = rho.v * g("R") * T.v; S e = g("R") * T.v / (g("gamma") - S(1)) + (u[0].v * u[0].v + u[1].v * u[1].v + u[2].v * u[2].v) / S(2);
@@ -208,7 +208,7 @@ struct FreeShear {
   // variant bit0: f_v1 frozen when mu_t is differentiated (as built); bit1: unsteady energy term e*d(rho)/dt (as built)
   static Q ref(const PM &p, const Q *pt, int eq, int variant) { typedef D1<3> S; typedef Dual<S, 3> I;
     S x[3]; for (int i = 0; i < 3; i++) { x[i] = S(pt[i]); x[i].d[i] = Q(1); } I xi[3]; for (int i = 0; i < 3; i++) { xi[i] = I(x[i]); xi[i].d[i] = S(1); }
-    auto f = fld<I>(p, xi); auto g = [&](const char *n) { return S(par(p, n)); };
+    auto f = fld<I>(p, xi); Compound operator_level; auto g = [&](const char *n) { return S(par(p, n)); };
     S rho = f[0].v, u[2] = {f[1].v, f[2].v}, pr = f[3].v, nu = f[4].v;
     S chi = rho * nu / g("mu"); S c3 = g("c_v1") * g("c_v1") * g("c_v1"); S fv1 = chi * chi * chi / (chi * chi * chi + c3);
     if (variant & 1) { fv1 = S(Q(fv1.v)); }
@@ -261,7 +261,7 @@ struct WallBounded {
   struct Aux { Q Sbar, Om, cv2, r; };
   static Q ref(const PM &p, const Q *pt, int eq, int variant, Aux *aux = nullptr) { typedef D1<2> S; typedef Dual<S, 2> I;
     S x[2]; for (int i = 0; i < 2; i++) { x[i] = S(pt[i]); x[i].d[i] = Q(1); } I xi[2]; for (int i = 0; i < 2; i++) { xi[i] = I(x[i]); xi[i].d[i] = S(1); }
-    auto f = fld<I>(p, xi); auto g = [&](const char *n) { return S(par(p, n)); };
+    auto f = fld<I>(p, xi); Compound operator_level; auto g = [&](const char *n) { return S(par(p, n)); };
     S rho = f[0].v, u[2] = {f[1].v, f[2].v}, nu = f[4].v; I T = f[3]; S pr = g("p_0");
     S chi = rho * nu / g("mu"); S c3 = g("c_v1") * g("c_v1") * g("c_v1"); S fv1 = chi * chi * chi / (chi * chi * chi + c3);
     if (variant & 1) { fv1 = S(Q(fv1.v)); }
@@ -279,6 +279,7 @@ struct WallBounded {
       S omega = f[2].d[0] - f[1].d[1]; Q Om = fabs(omega.v);
       S gg = f[4].d[0] * f[4].d[0] + f[4].d[1] * f[4].d[1];
       for (int j = 0; j < 2; j++) { S fl = rho * u[j] * nu - (mu + rho * nu) * f[4].d[j] / g("sigma"); res = res + fl.d[j]; }
+      FirstOrder closure_level;   // the SA closure scalars are evaluated unexpanded, through helper variables
       Q k2 = par(p, "kappa") * par(p, "kappa"); Q X = chi.v, F1 = fv1.v; Q fv2 = Q(1) - X / (Q(1) + X * F1);
       Q Sbar = nu.v * fv2 / (k2 * d * d); Q cv2 = par(p, "c_v2"), cv3 = par(p, "c_v3");
       Q Sm = (Sbar >= -cv2 * Om) ? Sbar : Om * (cv2 * cv2 * Om + cv3 * Sbar) / ((cv3 - Q(2) * cv2) * Om - Sbar);
@@ -297,17 +298,17 @@ struct Channel {
     S u = a1 * eta * (S(1) - eta / S(2)); S nu = b1 * eta - (etam + S(1)) * b1 * eta * eta / (S(2) * etam) + b1 * eta * eta * eta / (S(3) * etam); return {u, nu}; }
   struct Aux { Q Sbar, Om, cv2, r; };
   static Q ref(const PM &p, const Q *pt, int eq, Aux *aux = nullptr) { typedef D1<1> S; typedef Dual<S, 1> I; S x(pt[0]); x.d[0] = Q(1); I xi(x); xi.d[0] = S(1);
-    auto f = fld<I>(xi); auto g = [&](const char *n) { return S(par(p, n)); };
+    auto f = fld<I>(xi); Compound operator_level; auto g = [&](const char *n) { return S(par(p, n)); };
     S u = f[0].v, nu = f[1].v, du = f[0].d[0], dnu = f[1].d[0]; S ire = S(1) / g("re_tau");
     S chi = nu * g("re_tau"); S c3 = g("cv1") * g("cv1") * g("cv1"); S fv1 = chi * chi * chi / (chi * chi * chi + c3); S nut = nu * fv1;
     if (eq == 0) { S fl = (ire + nut) * du; return fl.d[0] + Q(1); }
+    S fl = (ire + nu) * dnu; FirstOrder closure_level;
     Q eta = pt[0]; Q k2 = par(p, "kappa") * par(p, "kappa"); Q fv2 = Q(1) - chi.v / (Q(1) + chi.v * fv1.v); Q Om = du.v;
     Q Sbar = nu.v * fv2 / (k2 * eta * eta); Q cv2 = par(p, "cv2"), cv3 = par(p, "cv3");
     Q Ssa = (Sbar >= -cv2 * Om) ? Om + Sbar : Om + Om * (cv2 * cv2 * Om + cv3 * Sbar) / ((cv3 - Q(2) * cv2) * Om - Sbar);
     Q r = nu.v / (Ssa * k2 * eta * eta); if (aux) { aux->Sbar = Sbar; aux->Om = Om; aux->cv2 = cv2; aux->r = r; }
     if (r > Q(10)) r = Q(10); Q r6 = r * r * r * r * r * r; Q gq = r + par(p, "cw2") * (r6 - r); Q cw3 = par(p, "cw3"); Q cw36 = cw3 * cw3 * cw3 * cw3 * cw3 * cw3; Q g6 = gq * gq * gq * gq * gq * gq;
     Q fw = gq * pow((Q(1) + cw36) / (g6 + cw36), Q(1) / Q(6)); Q cw1 = par(p, "cb1") / k2 + (Q(1) + par(p, "cb2")) / par(p, "sigma");
-    S fl = (ire + nu) * dnu;
     return par(p, "cb1") * Ssa * nu.v - cw1 * fw * (nu.v / eta) * (nu.v / eta) + (fl.d[0] + par(p, "cb2") * dnu.v * dnu.v) / par(p, "sigma"); }
 };
 
@@ -316,12 +317,12 @@ struct Chem {
   template <class S> static std::array<S, 4> fld(const PM &p, const S &x) { auto g = [&](const char *n) { return S(par(p, n)); }; S pi = S(qpi()), L = g("L");
     S rN = g("rho_N_0") + g("rho_N_x") * sin(g("a_rho_N_x") * pi * x / L); S rN2 = g("rho_N2_0") + g("rho_N2_x") * cos(g("a_rho_N2_x") * pi * x / L);
     S u = g("u_0") + g("u_x") * sin(g("a_ux") * pi * x / L); S T = g("T_0") + g("T_x") * cos(g("a_Tx") * pi * x / L); return {rN, rN2, u, T}; }
-  static Q ref(const PM &p, const Q *pt, int eq, const std::function<Q(Q)> &Keq) { typedef D1<1> S; S x(pt[0]); x.d[0] = Q(1); auto f = fld<S>(p, x); auto g = [&](const char *n) { return S(par(p, n)); };
+  static Q ref(const PM &p, const Q *pt, int eq, const std::function<Q(Q)> &Keq) { typedef D1<1> S; S x(pt[0]); x.d[0] = Q(1); auto f = fld<S>(p, x); Compound operator_level; auto g = [&](const char *n) { return S(par(p, n)); };
     S rN = f[0], rN2 = f[1], u = f[2], T = f[3], rho = rN + rN2;
-    if (eq == 0 || eq == 1) { Q Tq = T.v; Q K = Keq(Tq);
+    if (eq == 0 || eq == 1) { S flN = rN * u, flN2 = rN2 * u; FirstOrder closure_level; Q Tq = T.v; Q K = Keq(Tq);
       Q kfN = par(p, "Cf1_N") * pow(Tq, par(p, "etaf1_N")) * exp(-par(p, "Ea_N") / par(p, "R") / Tq); Q kfN2 = par(p, "Cf1_N2") * pow(Tq, par(p, "etaf1_N2")) * exp(-par(p, "Ea_N2") / par(p, "R") / Tq);
       Q M = par(p, "M_N"); Q cN = rN.v / M, cN2 = rN2.v / (Q(2) * M); Q kf = kfN * cN + kfN2 * cN2; Q Rf = kf * cN2, Rb = kf * cN * cN / K; Q wN = Q(2) * M * (Rf - Rb);
-      if (eq == 0) { S fl = rN * u; return fl.d[0] - wN; } else { S fl = rN2 * u; return fl.d[0] + wN; } }
+      if (eq == 0) return flN.d[0] - wN; return flN2.d[0] + wN; }
     S pr = (rN + rN2 / S(2)) * g("R_N") * T;
     if (eq == 2) { S fl = rho * u * u + pr; return fl.d[0]; }
     if (eq == 4) { S fl = rho * u; return fl.d[0]; }   // total mass flux divergence (closure check)
